@@ -5,7 +5,9 @@ import Swat4.Lemmas.QueueDeliver
 /-!
 # C12 — Every queued probe is delivered at most once, on time and in order
 
-`QueueMachine.qstep` / `QueueSys` model `probes.enqueue` and `probes.PopMany` command by command.
+`QueueMachine.qstep` / `QueueSys` model `probes.enqueue` and `probes.PopMany` command by command: rounds of
+`ZRANGEBYSCORE … WITHSCORES` + `MULTI{ZREM,HMGET,HDEL}`; every fetched item keeps the score it was ranged with, and the
+items of all rounds are stably sorted by that score before the call returns (`finishBatch`).
 
 The interleaving theorems quantify over **all** event lists `es` (any number of producers and consumers, any
 interleaving of storage commands, clock ticks, deaths before / after a command) from any initial state `s0` with
@@ -15,7 +17,10 @@ at the first command of their call).  They are stated over `reach s0 es`, the st
 probe, expiry, ready time, clock) and a log of entries taken out of the store by pop batches (`GPop`: id, client,
 probe, expiry, score, clock of the batch, returned / counted expired).  `ghost_faithful` shows that erasing the
 logs gives exactly the model's run, `ghost_popped` that the model's own ghost field `QClient.popped` is the log's
-projection, and `batch_is_log` that the value a `PopMany` returns is what the log says.
+projection, and `batch_is_log` that what a `PopMany` holds is what the log says, and what it returns is the log's batch
+records stably sorted by score.
+
+"Each batch is ordered by ready time" is `batch_sorted_all` (section 7/8): every interleaving, no side condition.
 
 "At most one consumer" is `at_most_once` / `handed_at_most_one`; "exactly one if it has not expired and no consumer dies
 while holding it" is `delivered_if_live` (section 9), with `lost_if_dies` showing that the death hypothesis is needed.
@@ -60,24 +65,29 @@ theorem ghost_popped (s0 : QSys) (h0 : s0.Init) (es : List QSysEv) (i : Nat) (c 
     (hc : (reach s0 es).sys.clients[i]? = some c) : c.popped = poppedOf i (reach s0 es).pops :=
   (((GInv.init h0).run es).clients i c hc).popped
 
-/-- what a `PopMany n` call holds at every pc, and returns when done, is exactly what the log says this consumer was
-handed (`returned = true` records, in order) and the number it dropped as expired (`returned = false` records) -/
+/-- what a `PopMany n` call holds at every pc is exactly what the log says this consumer was handed (`returned = true`
+records, in fetch order: payloads `retOf`, with scores `retS`) and the number it dropped as expired (`returned = false`
+records); what it returns when done is the payload list of its batch records stably sorted by score — a rearrangement of
+`retOf` (same payloads, same multiplicities) -/
 theorem batch_is_log (s0 : QSys) (h0 : s0.Init) (es : List QSysEv) (i : Nat) (c : QClient) (n : Int)
     (hc : (reach s0 es).sys.clients[i]? = some c) (hs : c.started = true) (hop : c.op = .popMany n) :
     match c.pc with
-    | .popRange got e => got = retOf i (reach s0 es).pops ∧ e = expOf i (reach s0 es).pops
-    | .popExec got e _ => got = retOf i (reach s0 es).pops ∧ e = expOf i (reach s0 es).pops
-    | .done (.probes got e) => got = retOf i (reach s0 es).pops ∧ e = expOf i (reach s0 es).pops
+    | .popRange got e => got = retS i (reach s0 es).pops ∧ got.map (·.1) = retOf i (reach s0 es).pops ∧ e = expOf i (reach s0 es).pops
+    | .popExec got e _ _ => got = retS i (reach s0 es).pops ∧ got.map (·.1) = retOf i (reach s0 es).pops ∧ e = expOf i (reach s0 es).pops
+    | .done (.probes ps e) =>
+      ps = (sortByScore GPop.score (batchRecs i (reach s0 es).pops)).map (·.probe) ∧
+      ps.Perm (retOf i (reach s0 es).pops) ∧ e = expOf i (reach s0 es).pops
     | _ => False := by
-  have h := (((GInv.init h0).run es).clients i c hc).pc hs
+  have hG := (GInv.init h0).run es
+  have h := (hG.clients i c hc).pc hs
   rw [hop] at h
   cases hpc : c.pc with
-  | popRange got e => rw [hpc] at h; exact ⟨h.1, h.2.1⟩
-  | popExec got e ids => rw [hpc] at h; exact ⟨h.1, h.2.1⟩
+  | popRange got e => rw [hpc] at h; exact ⟨h.1, by rw [h.1, retS_fst], h.2.1⟩
+  | popExec got e ids scs => rw [hpc] at h; exact ⟨h.1, by rw [h.1, retS_fst], h.2.1⟩
   | done r =>
     rw [hpc] at h
     cases r with
-    | probes got e => exact ⟨h.1, h.2.1⟩
+    | probes ps e => exact ⟨(hG.done_batch hc hs hop hpc).1, hG.batch_perm hc hs hop hpc, h.2.1⟩
     | _ => exact h
   | _ => rw [hpc] at h; exact h
 
@@ -166,14 +176,14 @@ theorem batch_size (s0 : QSys) (h0 : s0.Init) (es : List QSysEv) (i : Nat) (c : 
     (hc : (reach s0 es).sys.clients[i]? = some c) (hs : c.started = true) (hop : c.op = .popMany n) :
     match c.pc with
     | .popRange got _ => got.length ≤ n.toNat
-    | .popExec got _ ids => got.length + ids.length ≤ n.toNat
+    | .popExec got _ ids _ => got.length + ids.length ≤ n.toNat
     | .done (.probes ps _) => ps.length ≤ n.toNat
     | _ => False := by
   have h := (((GInv.init h0).run es).clients i c hc).pc hs
   rw [hop] at h
   cases hpc : c.pc with
   | popRange got e => rw [hpc] at h; exact Nat.le_of_lt h.2.2
-  | popExec got e ids => rw [hpc] at h; exact h.2.2.2
+  | popExec got e ids scs => rw [hpc] at h; exact h.2.2.2.1
   | done r =>
     rw [hpc] at h
     cases r with
@@ -240,7 +250,7 @@ theorem conservation_final (s0 : QSys) (h0 : s0.Init) (es : List QSysEv) (fuel :
       e.id = d.id ∧ e.probe = d.probe ∧ e.expires = d.expires ∧ d.ready = some e.ready) ∧
     (∀ (i : Nat) (c : QClient), ((reach s0 es).finish fuel).sys.clients[i]? = some c →
       c.popped = poppedOf i ((reach s0 es).finish fuel).pops ∧
-      (c.started = true → PcOK c.op c.pc (retOf i ((reach s0 es).finish fuel).pops) (expOf i ((reach s0 es).finish fuel).pops))) := by
+      (c.started = true → PcOK c.op c.pc (retS i ((reach s0 es).finish fuel).pops) (expOf i ((reach s0 es).finish fuel).pops))) := by
   have hG := ((GInv.init h0).run es).finish fuel
   exact ⟨hG.cover, hG.popOut, hG.popNodup, hG.popSrc, fun i c hc => ⟨(hG.clients i c hc).popped, (hG.clients i c hc).pc⟩⟩
 
@@ -261,22 +271,71 @@ theorem timing_final (s0 : QSys) (h0 : s0.Init) (harr : ∀ c ∈ s0.clients, c.
 
 /-! ## 7./8. batch order -/
 
-/-- the returned batch of consumer `i` is in ready-time order (stated on the pop records that make up the batch, see `batch_is_log`) -/
+/-- the batch `ps` of consumer `i` **is ordered by ready time**: it is the payload list of a rearrangement `recs` of the
+consumer's batch records (`batchRecs i`: the entries it took out of the store and did not drop as expired) in which every
+record stands before every record with a later ready time — the ready time being the one of the accepted enqueue with the
+same id, which is also the score the record was popped with -/
+def BatchSorted (g : GSys) (i : Nat) (ps : List Probe) : Prop :=
+  ∃ recs : List GPop, recs.Perm (batchRecs i g.pops) ∧ ps = recs.map (·.probe) ∧
+    recs.Pairwise fun a b => ∃ ea ∈ g.enqs, ∃ eb ∈ g.enqs,
+      ea.id = a.id ∧ eb.id = b.id ∧ a.ready = some ea.ready ∧ b.ready = some eb.ready ∧ ea.ready ≤ eb.ready
+
+theorem batchSorted_of_inv {g : GSys} (hG : GInv g) {i : Nat} {c : QClient} {n : Int} {ps : List Probe} {k : Nat}
+    (hc : g.sys.clients[i]? = some c) (hs : c.started = true) (hop : c.op = .popMany n) (hpc : c.pc = .done (.probes ps k)) :
+    BatchSorted g i ps := by
+  obtain ⟨recs, hperm, hps, hsorted⟩ := hG.batch_sorted hc hs hop hpc
+  refine ⟨recs, hperm, hps, List.Pairwise.imp_of_mem ?_ hsorted⟩
+  intro a b ha hb hab
+  obtain ⟨ra, rb, hra, hrb, hle⟩ := hab
+  obtain ⟨ea, hea, h1, _, _, h4⟩ := hG.popSrc a (mem_batchRecs.1 (hperm.mem_iff.1 ha)).1
+  obtain ⟨eb, heb, h5, _, _, h8⟩ := hG.popSrc b (mem_batchRecs.1 (hperm.mem_iff.1 hb)).1
+  rw [hra] at h4; rw [hrb] at h8
+  cases h4; cases h8
+  exact ⟨ea, hea, eb, heb, h1, h5, hra, hrb, hle⟩
+
+/-- **every batch is ordered by ready time, from every state satisfying the system invariant**: start the ghost system in
+any state `g0` with `GInv g0` (consistent store, log and store agree, every consumer's pc agrees with the log — any number
+of items already queued, calls in flight at any pc), run any event list (all interleavings of the storage commands of any
+number of consumers and producers, ticks of either sign, deaths before / after a command): whenever a `PopMany` call is
+finished, the batch `ps` it returned is ordered by ready time.  No side condition on producers (ready times in the past
+included) and none on the clock -/
+theorem batch_sorted_inv (g0 : GSys) (hinv : GInv g0) (es : List QSysEv) (i : Nat) (c : QClient) (n : Int) (ps : List Probe) (k : Nat)
+    (hc : (g0.run es).sys.clients[i]? = some c) (hs : c.started = true) (hop : c.op = .popMany n)
+    (hpc : c.pc = .done (.probes ps k)) : BatchSorted (g0.run es) i ps :=
+  batchSorted_of_inv (hinv.run es) hc hs hop hpc
+
+/-- **each batch is ordered by ready time** (the clause of C12; full strength: ALL event lists, i.e. all interleavings of
+consumers and producers, crashes included, from every admissible initial state): every batch returned by a finished
+`PopMany` is sorted by ready time, non-decreasing.  This is what the final `sort.SliceStable` by queue score of the repaired
+`PopMany` establishes; before the repair the call returned the fetch order, which is not sorted in general
+(`fetch_order_unsorted_witness`) -/
+theorem batch_sorted_all (s0 : QSys) (h0 : s0.Init) (es : List QSysEv) (i : Nat) (c : QClient) (n : Int) (ps : List Probe) (k : Nat)
+    (hc : (reach s0 es).sys.clients[i]? = some c) (hs : c.started = true) (hop : c.op = .popMany n)
+    (hpc : c.pc = .done (.probes ps k)) : BatchSorted (reach s0 es) i ps :=
+  batch_sorted_inv (GSys.init s0) (GInv.init h0) es i c n ps k hc hs hop hpc
+
+/-- the same in the final state the driver compares (events, then `finish`) -/
+theorem batch_sorted_all_final (s0 : QSys) (h0 : s0.Init) (es : List QSysEv) (fuel : Nat) (i : Nat) (c : QClient) (n : Int)
+    (ps : List Probe) (k : Nat)
+    (hc : ((reach s0 es).finish fuel).sys.clients[i]? = some c) (hs : c.started = true) (hop : c.op = .popMany n)
+    (hpc : c.pc = .done (.probes ps k)) : BatchSorted ((reach s0 es).finish fuel) i ps :=
+  batchSorted_of_inv (((GInv.init h0).run es).finish fuel) hc hs hop hpc
+
+/-- the **fetch order** of consumer `i` — the order in which its rounds took its batch records out of the store, which is
+the order of `retOf` and of the items the call holds while it runs — is in ready-time order.  When this holds the final sort
+of `PopMany` changes nothing; it does not hold in general (`fetch_order_unsorted_witness`) -/
 def SortedBatch (g : GSys) (i : Nat) : Prop :=
   (g.pops.filter fun d => d.client == i && d.returned).Pairwise fun a b => ∃ ra rb, a.ready = some ra ∧ b.ready = some rb ∧ ra ≤ rb
 
-/- FULL STATEMENT (false of the model and of the code, see `batch_unsorted_witness`):
-theorem batch_sorted (s0 : QSys) (h0 : s0.Init) (es : List QSysEv) (i : Nat) : SortedBatch (reach s0 es) i
--/
-
-/-- **batch order, sequential side condition** (the `_partial` of `batch_sorted`; extra hypothesis `hno`): split the run
-as `es1 ++ es2` such that consumer `i`'s call lies within `es2` (after `es1` it has popped nothing and is not between a
-`ZRANGEBYSCORE` and its batch).  If no enqueue executes during `es2` (the enqueue log does not grow) — other consumers,
-ticks of either sign and deaths are allowed — the batch consumer `i` holds / returns is in ready-time order.
-What is missing for the full statement is false: see `batch_unsorted_witness` -/
+/-- **fetch order, sequential side condition** (extra hypothesis `hno`): split the run as `es1 ++ es2` such that consumer
+`i`'s call lies within `es2` (after `es1` it has popped nothing and is not between a `ZRANGEBYSCORE` and its batch).  If no
+enqueue executes during `es2` (the enqueue log does not grow) — other consumers, ticks of either sign and deaths are
+allowed — the rounds of consumer `i` fetch in ready-time order: the batch it returns is in fetch order, the final sort is
+the identity.  Without `hno` the fetch order need not be sorted (`fetch_order_unsorted_witness`); the returned batch is
+(`batch_sorted_all`) -/
 theorem batch_sorted_seq (s0 : QSys) (h0 : s0.Init) (es1 es2 : List QSysEv) (i : Nat)
     (hfresh : ∀ d ∈ (reach s0 es1).pops, d.client ≠ i)
-    (hnot : ∀ c got e ids, (reach s0 es1).sys.clients[i]? = some c → c.started = true → c.pc ≠ .popExec got e ids)
+    (hnot : ∀ c got e ids scs, (reach s0 es1).sys.clients[i]? = some c → c.started = true → c.pc ≠ .popExec got e ids scs)
     (hno : (reach s0 (es1 ++ es2)).enqs.length = (reach s0 es1).enqs.length) :
     SortedBatch (reach s0 (es1 ++ es2)) i := by
   have hG1 := (GInv.init h0).run es1
@@ -287,14 +346,15 @@ theorem batch_sorted_seq (s0 : QSys) (h0 : s0.Init) (es1 es2 : List QSysEv) (i :
   rw [hr] at hno ⊢
   exact (h2.2.2 (Nat.le_of_eq hno)).batch h2.1
 
-/-- **batch order, concurrent side condition** (the stronger `_partial`; extra hypotheses `hm`, `hlate`): as
-`batch_sorted_seq`, but enqueues may execute during the call provided each of them has a ready time that is not
-before the system clock at the moment its batch executes (every producer in the repository: `ready ≥ now`), and the
-clock is monotone.  A late enqueue with a past ready time is exactly what `batch_unsorted_witness` uses -/
-theorem batch_sorted_conc (s0 : QSys) (h0 : s0.Init) (harr : ∀ c ∈ s0.clients, c.started = true → c.arrival ≤ s0.clock)
+/-- **fetch order, concurrent side condition** (extra hypotheses `hm`, `hlate`): as `batch_sorted_seq`, but enqueues may
+execute during the call provided each of them has a ready time that is not before the system clock at the moment its batch
+executes (every producer in the repository: `ready ≥ now`), and the clock is monotone: then, too, the rounds fetch in
+ready-time order and the final sort is the identity.  A late enqueue with a past ready time is exactly what
+`fetch_order_unsorted_witness` uses -/
+theorem fetch_sorted_conc (s0 : QSys) (h0 : s0.Init) (harr : ∀ c ∈ s0.clients, c.started = true → c.arrival ≤ s0.clock)
     (es1 es2 : List QSysEv) (hm : Monotone (es1 ++ es2)) (i : Nat)
     (hfresh : ∀ d ∈ (reach s0 es1).pops, d.client ≠ i)
-    (hnot : ∀ c got e ids, (reach s0 es1).sys.clients[i]? = some c → c.started = true → c.pc ≠ .popExec got e ids)
+    (hnot : ∀ c got e ids scs, (reach s0 es1).sys.clients[i]? = some c → c.started = true → c.pc ≠ .popExec got e ids scs)
     (hlate : ∀ (k : Nat) (e : GEnq), (reach s0 es1).enqs.length ≤ k → (reach s0 (es1 ++ es2)).enqs[k]? = some e → e.clk ≤ e.ready) :
     SortedBatch (reach s0 (es1 ++ es2)) i := by
   have hm1 : Monotone es1 := fun e he => hm e (List.mem_append.2 (Or.inl he))
@@ -307,6 +367,24 @@ theorem batch_sorted_conc (s0 : QSys) (h0 : s0.Init) (harr : ∀ c ∈ s0.client
   have hr : reach s0 (es1 ++ es2) = (reach s0 es1).run es2 := GSys.run_append _ _ _
   rw [hr] at hlate ⊢
   exact (h2.2.2.2 hlate).batch h2.1
+
+/-- a batch returned in sorted fetch order is the fetch order itself: if `SortedBatch` holds (e.g. by `batch_sorted_seq`),
+a finished `PopMany` of consumer `i` returned exactly `retOf i` — the final sort moved nothing -/
+theorem batch_is_fetch_order (s0 : QSys) (h0 : s0.Init) (es : List QSysEv) (i : Nat) (c : QClient) (n : Int) (ps : List Probe) (k : Nat)
+    (hc : (reach s0 es).sys.clients[i]? = some c) (hs : c.started = true) (hop : c.op = .popMany n)
+    (hpc : c.pc = .done (.probes ps k)) (hsorted : SortedBatch (reach s0 es) i) : ps = retOf i (reach s0 es).pops := by
+  have hG := (GInv.init h0).run es
+  have h := (hG.clients i c hc).pc hs
+  rw [hop, hpc] at h
+  rw [h.1, ← retS_fst]
+  refine finishBatch_of_sorted _ ?_
+  unfold retS
+  rw [List.pairwise_map]
+  refine List.Pairwise.imp ?_ hsorted
+  intro a b hab
+  obtain ⟨ra, rb, hra, hrb, hle⟩ := hab
+  simp only [hra, hrb, Option.getD_some]
+  exact hle
 
 def wp1 : Probe := ⟨⟨1, 10481⟩, 10481, .details, 0, 3⟩
 def wp2 : Probe := ⟨⟨2, 10482⟩, 10482, .details, 0, 3⟩
@@ -334,18 +412,43 @@ theorem witness_pops : (reach witness witnessEvents).pops =
     [⟨0, 1, wp1, none, some 50, 100, true⟩, ⟨1, 1, wp2, none, some 10, 100, true⟩] := by rfl
 
 set_option maxRecDepth 100000 in
-theorem batch_unsorted_witness :
+/-- **why the final sort is needed** (the defect `C12-late-past-ready`, recorded as fixed): on this 4-event schedule the
+rounds of the consumer fetch `wp1` (ready 50) and then `wp2` (ready 10, enqueued — with a ready time already in the past —
+while the call was in progress): the fetch order `[wp1, wp2]`, which is what `PopMany` returned before the repair, is not
+in ready-time order.  The repaired call returns `[wp2, wp1]` -/
+theorem fetch_order_unsorted_witness :
     witness.Init ∧
-    ((witness.run witnessEvents).clients[1]?).map (·.pc) = some (.done (.probes [wp1, wp2] 0)) ∧
+    retOf 1 (reach witness witnessEvents).pops = [wp1, wp2] ∧
     ((reach witness witnessEvents).enqs.map fun e => (e.id, e.probe, e.ready, e.clk)) = [(0, wp1, 50, 100), (1, wp2, 10, 100)] ∧
-    ¬ SortedBatch (reach witness witnessEvents) 1 := by
-  refine ⟨witness_init, by rfl, by rfl, ?_⟩
+    ¬ SortedBatch (reach witness witnessEvents) 1 ∧
+    ((witness.run witnessEvents).clients[1]?).map (·.pc) = some (.done (.probes [wp2, wp1] 0)) := by
+  refine ⟨witness_init, by rw [witness_pops]; rfl, by rfl, ?_, by rfl⟩
   unfold SortedBatch
   rw [witness_pops]
   simp [List.filter]
 
 set_option maxRecDepth 100000 in
-/-- non-vacuity of the hypotheses of `batch_sorted_seq` / `batch_sorted_conc`: on the witness system, with the late producer
+/-- non-vacuity of `batch_sorted_all` on the schedule of the old counterexample: the consumer is a started `PopMany 2`
+that has finished with `[wp2, wp1]`; the theorem applies and says this batch is ordered by ready time (10 ≤ 50) -/
+example :
+    (((reach witness witnessEvents).sys.clients[1]?).map fun c => (c.started, c.pc)) = some (true, .done (.probes [wp2, wp1] 0)) ∧
+    BatchSorted (reach witness witnessEvents) 1 [wp2, wp1] := by
+  have hcl : (((reach witness witnessEvents).sys.clients[1]?).map fun c => (c.started, c.pc)) =
+      some (true, .done (.probes [wp2, wp1] 0)) := by rfl
+  refine ⟨hcl, ?_⟩
+  cases hc : (reach witness witnessEvents).sys.clients[1]? with
+  | none => rw [hc] at hcl; cases hcl
+  | some c =>
+    rw [hc] at hcl
+    simp only [Option.map_some, Option.some.injEq, Prod.mk.injEq] at hcl
+    have hop : c.op = .popMany 2 := by
+      have : ((reach witness witnessEvents).sys.clients[1]?).map (·.op) = some (.popMany 2) := by rfl
+      rw [hc] at this
+      simpa using this
+    exact batch_sorted_all witness witness_init witnessEvents 1 c 2 [wp2, wp1] 0 hc hcl.1 hop hcl.2
+
+set_option maxRecDepth 100000 in
+/-- non-vacuity of the hypotheses of `batch_sorted_seq` / `fetch_sorted_conc`: on the witness system, with the late producer
 left out of the schedule (`es1` = producer 0 runs, `es2` = the consumer runs), all hypotheses hold and the consumer returns `[wp1]` -/
 example :
     SortedBatch (reach witness ([.run 0] ++ [.run 1])) 1 ∧
@@ -353,14 +456,32 @@ example :
   refine ⟨batch_sorted_seq witness witness_init [.run 0] [.run 1] 1 ?_ ?_ (by rfl), by rfl⟩
   · have : (reach witness [.run 0]).pops = [] := by rfl
     rw [this]; intro d hd; cases hd
-  · intro c got e ids hc hs
+  · intro c got e ids scs hc hs
     have : ((reach witness [.run 0]).sys.clients[1]?) = some { op := .popMany 2, pc := .start } := by rfl
     rw [this] at hc
     cases hc
     cases hs
 
 set_option maxRecDepth 100000 in
-/-- the witness schedule violates exactly the side condition of `batch_sorted_conc`: the second enqueue executes at clock 100
+/-- non-vacuity of `batch_is_fetch_order`: same schedule; the fetch order is sorted, the consumer has finished, and what it
+returned is the fetch order `retOf` -/
+example : retOf 1 (reach witness [.run 0, .run 1]).pops = [wp1] := by
+  have hsorted : SortedBatch (reach witness [.run 0, .run 1]) 1 := by
+    have hp : (reach witness [.run 0, .run 1]).pops = [⟨0, 1, wp1, none, some 50, 100, true⟩] := by rfl
+    unfold SortedBatch
+    rw [hp]
+    simp [List.filter]
+  have hcl : (((reach witness [.run 0, .run 1]).sys.clients[1]?).map fun c => (c.started, c.op, c.pc)) =
+      some (true, .popMany 2, .done (.probes [wp1] 0)) := by rfl
+  cases hc : (reach witness [.run 0, .run 1]).sys.clients[1]? with
+  | none => rw [hc] at hcl; cases hcl
+  | some c =>
+    rw [hc] at hcl
+    simp only [Option.map_some, Option.some.injEq, Prod.mk.injEq] at hcl
+    exact (batch_is_fetch_order witness witness_init [.run 0, .run 1] 1 c 2 [wp1] 0 hc hcl.1 hcl.2.1 hcl.2.2 hsorted).symm
+
+set_option maxRecDepth 100000 in
+/-- the witness schedule violates exactly the side condition of `fetch_sorted_conc`: the second enqueue executes at clock 100
 with ready time 10 -/
 example : ¬ (∀ (k : Nat) (e : GEnq), (reach witness [.run 0, .step 1]).enqs.length ≤ k →
     (reach witness ([.run 0, .step 1] ++ [.run 2, .run 1])).enqs[k]? = some e → e.clk ≤ e.ready) := by
@@ -372,7 +493,8 @@ example : ¬ (∀ (k : Nat) (e : GEnq), (reach witness [.run 0, .step 1]).enqs.l
 
 Batches are lists of probes, i.e. of *payloads*, and two different queue entries (ids) may carry equal payloads; "the
 probe occurs exactly once in the batches" is therefore stated on pop records / ids (which the log keeps) and tied to the
-payload lists position by position (`Delivery.position`, `Delivery.held`), not by counting equal payloads. -/
+payload lists (`Delivery.position`: position by position in fetch order; `Delivery.held`: the returned batch is a
+rearrangement — the stable sort by score — of the fetch order and contains the payload), not by counting equal payloads. -/
 
 /-- the pop record `d` is unexpired at the clock of its pop batch (the value `PopMany`'s `isItemExpired` test uses) -/
 def Unexpired (d : GPop) : Prop := d.expires = none ∨ ∃ x, d.expires = some x ∧ d.clk ≤ x
@@ -412,16 +534,17 @@ structure Delivery (g : GSys) (e : GEnq) (d : GPop) : Prop where
   /-- expired ⇒ in nobody's batch -/
   dropped : ¬ Unexpired d → (g.pops.filter fun d' => d'.id == e.id && d'.returned) = []
   /-- unexpired ⇒ the record sits at a position `k` of its consumer's batch records, and the payload at position `k` of
-  the batch the log attributes to that consumer -/
+  the batch the log attributes to that consumer (fetch order; the returned batch is its stable sort by score, see `held`) -/
   position : Unexpired d →
     ∃ k : Nat, (batchRecs d.client g.pops)[k]? = some d ∧ (retOf d.client g.pops)[k]? = some d.probe
   /-- unexpired ⇒ the consumer holds the probe in its batch at every pc from the pop batch on (dead or alive: if it is
-  dead this is what was lost), and (c) if it has finished, the probe is in the batch `got` it finished with -/
+  dead this is what was lost), and (c) if it has finished, the probe is in the batch `ps` it finished with, which is a
+  rearrangement of what it held (same payloads, same multiplicities: nothing added, dropped or duplicated by the final sort) -/
   held : Unexpired d → ∀ c, g.sys.clients[d.client]? = some c →
     match c.pc with
-    | .popRange got _ => got = retOf d.client g.pops ∧ d.probe ∈ got
-    | .popExec got _ _ => got = retOf d.client g.pops ∧ d.probe ∈ got
-    | .done (.probes got _) => got = retOf d.client g.pops ∧ d.probe ∈ got
+    | .popRange got _ => got.map (·.1) = retOf d.client g.pops ∧ d.probe ∈ got.map (·.1)
+    | .popExec got _ _ _ => got.map (·.1) = retOf d.client g.pops ∧ d.probe ∈ got.map (·.1)
+    | .done (.probes ps _) => ps.Perm (retOf d.client g.pops) ∧ d.probe ∈ ps
     | _ => False
   /-- **at most one** consumer, whatever happens -/
   atMostOne : ∀ j, HandedTo g e.id j → j = d.client
@@ -445,9 +568,9 @@ theorem delivery_of {g : GSys} (hG : GInv g) (hO : PopOwner g) {e : GEnq} (he : 
     | false => exact absurd ((unexpired_iff d).2 hx) hu
   have hheld : Unexpired d → ∀ c, g.sys.clients[d.client]? = some c →
       match c.pc with
-      | .popRange got _ => got = retOf d.client g.pops ∧ d.probe ∈ got
-      | .popExec got _ _ => got = retOf d.client g.pops ∧ d.probe ∈ got
-      | .done (.probes got _) => got = retOf d.client g.pops ∧ d.probe ∈ got
+      | .popRange got _ => got.map (·.1) = retOf d.client g.pops ∧ d.probe ∈ got.map (·.1)
+      | .popExec got _ _ _ => got.map (·.1) = retOf d.client g.pops ∧ d.probe ∈ got.map (·.1)
+      | .done (.probes ps _) => ps.Perm (retOf d.client g.pops) ∧ d.probe ∈ ps
       | _ => False := by
     intro hu c hc
     obtain ⟨c', n, hc', hs, hop⟩ := hO d hd
@@ -456,12 +579,20 @@ theorem delivery_of {g : GSys} (hG : GInv g) (hO : PopOwner g) {e : GEnq} (he : 
     have h := (hG.clients _ c hc).pc hs
     rw [hop] at h
     cases hpc : c.pc with
-    | popRange got k => rw [hpc] at h; exact ⟨h.1, h.1 ▸ hm⟩
-    | popExec got k ids => rw [hpc] at h; exact ⟨h.1, h.1 ▸ hm⟩
+    | popRange got k =>
+      rw [hpc] at h
+      have he : got.map (·.1) = retOf d.client g.pops := by rw [h.1, retS_fst]
+      exact ⟨he, he ▸ hm⟩
+    | popExec got k ids scs =>
+      rw [hpc] at h
+      have he : got.map (·.1) = retOf d.client g.pops := by rw [h.1, retS_fst]
+      exact ⟨he, he ▸ hm⟩
     | done r =>
       rw [hpc] at h
       cases r with
-      | probes got k => exact ⟨h.1, h.1 ▸ hm⟩
+      | probes ps k =>
+        have hp := hG.batch_perm hc hs hop hpc
+        exact ⟨hp, hp.mem_iff.2 hm⟩
       | _ => exact h
     | _ => rw [hpc] at h; exact h
   refine ⟨hid, huniq, ?_, hO d hd, ⟨hret, hnret⟩, ?_, ?_, fun hu => retOf_position hd (hret hu), hheld, ?_, ?_⟩
@@ -507,7 +638,8 @@ place: (a) still queued and in no pop record; or out of the queue and in exactly
 `d.client`, same probe / expiry / ready time — for which `Delivery` holds: (b) if `d` is unexpired at the clock of its pop
 batch it was appended to that consumer's batch (`verdict`; otherwise it was counted as expired and is in nobody's batch,
 `dropped`), its id occurs exactly once among all records appended to batches — once in `d.client`'s, in no other
-consumer's (`once`) — the consumer holds the payload at every later pc (`held`, `position`), and (c) if that consumer is not
+consumer's (`once`) — the consumer holds the payload at every later pc (`held`, `position`; the batch it finally returns is
+a rearrangement of what it held: the stable sort by score), and (c) if that consumer is not
 dead and has finished, the entry has been handed to it (`exactlyOne`) and to no other consumer (`atMostOne`).
 Assembled from `conservation`, `integrity`, `at_most_once`, `not_late` (its converse direction, `GInv.popRet`),
 `batch_is_log`, and the invariant `PopOwner` (Lemmas/QueueDeliver.lean).  The hypothesis "not dead" cannot be dropped:
@@ -578,15 +710,16 @@ example :
 
 set_option maxRecDepth 100000 in
 /-- non-vacuity of `delivered_if_live_final`: producer 0 runs, then the completion phase runs everybody round-robin (the
-consumer and the late producer 2 interleaved): entry 0 has been handed to consumer 1, which finishes with `[wp1, wp2]` -/
+consumer and the late producer 2 interleaved): entry 0 has been handed to consumer 1, which fetched `wp1`, then `wp2`, and
+finishes with `[wp2, wp1]` (ready times 10, 50) -/
 example :
     HandedTo ((reach witness [.run 0]).finish 10) 0 1 ∧
-    ((((reach witness [.run 0]).finish 10).sys.clients[1]?).map (·.pc)) = some (.done (.probes [wp1, wp2] 0)) := by
+    ((((reach witness [.run 0]).finish 10).sys.clients[1]?).map (·.pc)) = some (.done (.probes [wp2, wp1] 0)) := by
   have henqs : ((reach witness [.run 0]).finish 10).enqs = [⟨0, 0, wp1, none, 50, 100⟩, ⟨1, 2, wp2, none, 10, 100⟩] := by rfl
   have hpops : ((reach witness [.run 0]).finish 10).pops =
       [⟨0, 1, wp1, none, some 50, 100, true⟩, ⟨1, 1, wp2, none, some 10, 100, true⟩] := by rfl
   have hdead : (((reach witness [.run 0]).finish 10).sys.clients[1]?).map (·.dead) = some false := by rfl
-  have hpc : (((reach witness [.run 0]).finish 10).sys.clients[1]?).map (·.pc) = some (.done (.probes [wp1, wp2] 0)) := by rfl
+  have hpc : (((reach witness [.run 0]).finish 10).sys.clients[1]?).map (·.pc) = some (.done (.probes [wp2, wp1] 0)) := by rfl
   refine ⟨?_, hpc⟩
   have h := delivered_if_live_final witness witness_init [.run 0] 10 ⟨0, 0, wp1, none, 50, 100⟩
     (by rw [henqs]; exact List.mem_cons_self)
@@ -616,7 +749,7 @@ theorem lost_if_dies :
     (reach witness deadEvents).pops = [⟨0, 1, wp1, none, some 50, 100, true⟩] ∧
     Unexpired ⟨0, 1, wp1, none, some 50, 100, true⟩ ∧
     ((reach witness deadEvents).sys.clients.map fun c => (c.dead, c.pc)) =
-      [(false, .done .unit), (true, .popRange [wp1] 0), (false, .start)] ∧
+      [(false, .done .unit), (true, .popRange [(wp1, 50)] 0), (false, .start)] ∧
     0 ∉ (reach witness deadEvents).sys.store.pQueue ∧
     ∀ j, ¬ HandedTo (reach witness deadEvents) 0 j := by
   have hpops : (reach witness deadEvents).pops = [⟨0, 1, wp1, none, some 50, 100, true⟩] := by rfl
